@@ -170,20 +170,87 @@ func c01Class(c c01Case) (string, bool) {
 
 var c01Meta = []string{"'", "\"", "$", "*", "?", "(", ")", "[", "]", "{", "}", "|", "&", ";", "<", ">", "^", "#", "~", "\\", "=", ",", "@",
 	" ", "\t", "\r", "\n", "\r\n", "^\n", "\x00", "\x7f", "?(", "$'", "$\"", "\\x", "\\c", "\\u12", "\\7", "\\400", "&k=", ">&", "{|", "[&",
-	"\x80", "\xc0", "\xff", "\xe4\xb8", "\xf0\x9f", "\xed\xa0\x80", "\xef\xbf\xbd", "é", "世", "\U0001F600", "a", "0"}
+	"\x80", "\xc0", "\xff", "\xe4\xb8", "\xf0\x9f", "\xed\xa0\x80", "\xef\xbf\xbd", "é", "世", "\U0001F600", "a", "0",
+	"\ufeff", "\xef\xbb", "\u2028", "\u0085", "\\U", "\\u", "\\^", "D800", "110000", "FFFF"}
+
+// c01Lead are atoms put in front of a source now and then: a byte order mark, NUL, a lone
+// continuation byte, a shebang, blank lines - things whose handling is special only at offset 0.
+var c01Lead = []string{"\ufeff", "\ufeff\ufeff", "\xef\xbb", "\xbf", "\x00", "#!/bin/elvish\n", "\n\n", "\r\n", " ", "\t", "^\n", "\ufffe", "\u200b"}
+
+func c01WithLead(t *rapid.T, s string) string {
+	if rapid.IntRange(0, 19).Draw(t, "lead") == 0 {
+		return rapid.SampledFrom(c01Lead).Draw(t, "leadatom") + s
+	}
+	return s
+}
+
+// c01EscapeValues are the code points whose spelling in \x, \u, \U and octal escapes sits
+// on a boundary: surrogates, the last code point and the first value after it, values that
+// overflow int32, NUL, DEL, and the byte / rune split at 0x80 and 0x100.
+var c01EscapeValues = []uint64{0, 1, 0x7f, 0x80, 0xff, 0x100, 0x7ff, 0x800, 0xd7ff, 0xd800, 0xdbff, 0xdc00, 0xdfff, 0xe000, 0xfffd, 0xfffe, 0xffff,
+	0x10000, 0x10ffff, 0x110000, 0x1fffff, 0x7fffffff, 0x80000000, 0xffffffff, 0xd800000, 0x11000000}
+
+// c01EscapeString builds (a prefix of) a double-quoted string out of escape sequences that
+// are complete, cut short at any digit, or carry out-of-range values.
+func c01EscapeString(t *rapid.T) string {
+	var sb strings.Builder
+	sb.WriteString(rapid.SampledFrom([]string{"", "", "", "$", "a", " ", "e ", "a=", "put ", "\n", "$x["}).Draw(t, "pre"))
+	sb.WriteByte('"')
+	for i, n := 0, rapid.IntRange(1, 4).Draw(t, "nesc"); i < n; i++ {
+		v := rapid.SampledFrom(c01EscapeValues).Draw(t, "v")
+		if rapid.IntRange(0, 3).Draw(t, "rnd") == 0 {
+			v = rapid.Uint64Range(0, 0xffffffff).Draw(t, "vr")
+		}
+		var esc string
+		switch rapid.IntRange(0, 6).Draw(t, "kind") {
+		case 0:
+			esc = fmt.Sprintf("\\x%02X", v&0xff)
+		case 1:
+			esc = fmt.Sprintf("\\u%04x", v&0xffff)
+		case 2, 3:
+			esc = fmt.Sprintf("\\U%08X", v&0xffffffff)
+		case 4:
+			esc = fmt.Sprintf("\\%03o", v&0x1ff)
+		case 5:
+			esc = "\\c" + string(rune(0x3f+v%0x22))
+		default:
+			esc = "\\" + rapid.SampledFrom([]string{"^", "^@", "^?", "^_", "^`", "a", "e", "z", "\\", "\"", "\n", "8", "x", "u", "U", "\xff", "é"}).Draw(t, "misc")
+		}
+		switch rapid.IntRange(0, 3).Draw(t, "cut") {
+		case 0: // cut short
+			esc = esc[:rapid.IntRange(1, len(esc)).Draw(t, "at")]
+		case 1: // drop leading zeros of the digits: "\UD800"
+			if len(esc) > 2 {
+				d := strings.TrimLeft(esc[2:], "0")
+				esc = esc[:2] + d
+			}
+		}
+		sb.WriteString(esc)
+		if rapid.IntRange(0, 4).Draw(t, "fill") == 0 {
+			sb.WriteString(rapid.SampledFrom([]string{"g", " ", "\n", "é", "\xff", "0", "F"}).Draw(t, "filler"))
+		}
+	}
+	if rapid.IntRange(0, 2).Draw(t, "close") > 0 {
+		sb.WriteByte('"')
+		sb.WriteString(rapid.SampledFrom([]string{"", "", " b", "]", "\n"}).Draw(t, "post"))
+	}
+	return sb.String()
+}
 
 func c01GenBytes(t *rapid.T) c01Case {
-	switch rapid.IntRange(0, 3).Draw(t, "mode") {
+	switch rapid.IntRange(0, 4).Draw(t, "mode") {
 	case 0:
-		return c01Case{"bytes/uniform", vs.B(rapid.SliceOfN(rapid.Byte(), 0, 64).Draw(t, "b"))}
+		return c01Case{"bytes/uniform", vs.B(c01WithLead(t, string(rapid.SliceOfN(rapid.Byte(), 0, 64).Draw(t, "b"))))}
 	case 1:
-		return c01Case{"bytes/atoms", gen.Str(t, "s", 24)}
+		return c01Case{"bytes/atoms", vs.B(c01WithLead(t, string(gen.Str(t, "s", 24))))}
+	case 2:
+		return c01Case{"bytes/escapes", vs.B(c01EscapeString(t))}
 	default:
 		var sb strings.Builder
 		for i, n := 0, rapid.IntRange(0, 24).Draw(t, "n"); i < n; i++ {
 			sb.WriteString(rapid.SampledFrom(c01Meta).Draw(t, "m"))
 		}
-		return c01Case{"bytes/meta", vs.B(sb.String())}
+		return c01Case{"bytes/meta", vs.B(c01WithLead(t, sb.String()))}
 	}
 }
 
@@ -215,7 +282,7 @@ func c01GenGrammar(t *rapid.T) c01Case {
 		src = open + src + "\n" + close
 		kind = "grammar/nested"
 	}
-	return c01Case{kind, vs.B(src)}
+	return c01Case{kind, vs.B(c01WithLead(t, src))}
 }
 
 // c01Mutate applies 1..4 byte-level mutations.
@@ -267,7 +334,7 @@ func c01GenMutated(t *rapid.T) c01Case {
 	cfg := c01SrcCfg{MaxDepth: 3, MaxPipelines: 3, MaxPrimaries: 25}
 	src := c01SrcProgram(t, cfg)
 	other := c01SrcProgram(t, c01SrcCfg{MaxDepth: 2, MaxPipelines: 2, MaxPrimaries: 10})
-	m := c01Mutate(t, src, other)
+	m := c01WithLead(t, c01Mutate(t, src, other))
 	kind := "mutated/utf8"
 	if !utf8.ValidString(m) {
 		kind = "mutated/invalid-utf8"
@@ -281,7 +348,7 @@ func init() {
 	}
 	vs.Register(vs.Prop[c01Case]{
 		Name:  "C01/bytes",
-		Rule:  "byte strings: uniformly random bytes (<=64), hostile-atom strings (gen.Str, <=24 atoms) and strings of parser metacharacters, escape fragments and invalid UTF-8 (<=24 atoms); oracle: tree walk against the source text; non-trivial = at least one parse error or tree depth >= 4",
+		Rule:  "byte strings: uniformly random bytes (<=64), hostile-atom strings (gen.Str, <=24 atoms), strings of parser metacharacters, escape fragments and invalid UTF-8 (<=24 atoms), and double-quoted strings of 1..4 numeric/control escapes with boundary values (surrogates, >U+10FFFF, int32 overflow) that are complete, cut short or without leading zeros; 5% get a leading BOM/NUL/shebang/blank atom; oracle: tree walk against the source text; non-trivial = at least one parse error or tree depth >= 4",
 		Gen:   c01GenBytes,
 		Check: c01Check,
 		Class: c01Class,
